@@ -177,7 +177,7 @@ pub fn run_prop<P: Prop>(p: &P, o: &RunOpts) -> Value {
         failure_persistence: None,
         rng_seed: RngSeed::Fixed(u64::from_le_bytes(seed[..8].try_into().unwrap())),
         max_shrink_iters: 1500,
-        max_shrink_time: 120_000,
+        max_shrink_time: 30_000,
         max_global_rejects: 1,
         verbose: 0,
         ..Config::default()
@@ -328,8 +328,9 @@ pub fn run_prop<P: Prop>(p: &P, o: &RunOpts) -> Value {
             // post-shrink pass: greedy delta debugging with the property's own candidates
             let mut case = case;
             let mut message = reason.message().to_string();
-            let mut budget = 400;
-            'outer: while budget > 0 {
+            let mut budget = 300;
+            let ddmin_start = std::time::Instant::now();
+            'outer: while budget > 0 && ddmin_start.elapsed().as_secs() < 30 {
                 for cand in p.simplify(&case) {
                     if budget == 0 {
                         break 'outer;
